@@ -1340,6 +1340,18 @@ package grpctunnel
 //@   ensures[C12] @cursor c.idx == old(c.idx)
 //@   nopanic[C09,C12]
 
+// Round robin. pick moves the cursor to rrnext(cursor, n). By induction on k
+// (rr_base, rr_step) the k-th pick after a cursor s lands on mod(s + k, n) while
+// the set of n tunnels is stable, and by rr_distinct any n consecutive picks land
+// on n different positions, i.e. use every tunnel exactly once (pigeonhole on n
+// positions). The lemmas are over mathematical integers; the cursor and n are
+// machine ints bounded by a slice length, where the two agree.
+//@ spec func rrnext(i, n) = ite(i + 1 < n, i + 1, 0)
+//@ lemma[C12] @rr_base     forall s ghostint :: forall n ghostint :: n > 0 && 0 <= s && s < n ==> mod(s + 0, n) == s
+//@ lemma[C12] @rr_step     forall s ghostint :: forall k ghostint :: forall n ghostint :: n > 0 && 0 <= s && s < n && k >= 0 ==> rrnext(mod(s + k, n), n) == mod(s + k + 1, n)
+//@ lemma[C12] @rr_range    forall s ghostint :: forall k ghostint :: forall n ghostint :: n > 0 && k >= 0 && 0 <= s ==> 0 <= mod(s + k, n) && mod(s + k, n) < n
+//@ lemma[C12] @rr_distinct forall s ghostint :: forall a ghostint :: forall b ghostint :: forall n ghostint :: n > 0 && 0 <= s && 0 <= a && a < b && b < a + n ==> mod(s + a, n) != mod(s + b, n)
+
 //@ func (*reverseChannels).pick
 //@   witness n = len(c.chans)
 //@   witness idx = c.idx
@@ -1347,7 +1359,7 @@ package grpctunnel
 //@   assigns nothing
 //@   ensures[C12] @nilreg  c == nil ==> result == nil
 //@   ensures[C12] @empty   c != nil && len(old(c.chans)) == 0 ==> result == nil && c.idx == old(c.idx)
-//@   ensures[C12] @next    c != nil && len(old(c.chans)) > 0 ==> c.idx == ite(old(c.idx) + 1 < len(old(c.chans)), old(c.idx) + 1, 0) && id(result) == c.chans[c.idx].ch && result != nil && result is *tunnelChannel
+//@   ensures[C12] @next    c != nil && len(old(c.chans)) > 0 ==> c.idx == rrnext(old(c.idx), len(old(c.chans))) && id(result) == c.chans[c.idx].ch && result != nil && result is *tunnelChannel
 //@   ensures[C12] @readonly c != nil ==> c.chans == old(c.chans) && c.avail == old(c.avail)
 //@   effects nilrecv-ok
 //@   nopanic[C09,C12]
